@@ -613,3 +613,53 @@ _add("C20", "compatible retypings are reported (compatibleRetypeSeverity re-extr
             "schemas against the schema built from their own SDL; defaults enter the model as GraphQL values of their position (gql_canon_default, independent "
             "of the library's printer).",
      "Known findings G1, G4 (pinned). Repaired: G2, G3, G5, Python-equal defaults, subclass kinds, hash-dependent order, defaults as GraphQL values.")
+
+
+# --- extension round `ex` (C04 / C05): narrative brought in line with the tree ---
+def _sub(k, field, old, new):
+    assert old in CHECKS[k][field], (k, field, old[:40])
+    CHECKS[k][field] = CHECKS[k][field].replace(old, new)
+
+
+_sub("C04", "text",
+     "exec_refines_spec (for every ranked document whose directive conditions are evaluable the executor model's response equals the spec's; "
+     "exec_refines_spec_spreadfree_exact without that premise)",
+     "exec_refines_spec (for EVERY ranked document - named spreads and directive conditions that cannot be evaluated included: "
+     "collect_refines_spec / collect_refines_spec_fail - the executor model's response is the spec's: same ordered data, errors equal one by one on path "
+     "and kind, locations up to repeats; exec_refines_spec_spreadfree_exact: exact equality without named spreads; the only hypothesis, Ranked, follows "
+     "from validation: C05's rules_accept_ranked / rules_accept_refines_spec need three silent fragment rules)")
+_sub("C04", "note",
+     " exec_refines_spec with named spreads AND a failing directive condition rests "
+     "on the correspondence (the collect simulation covers the ok outcome).", "")
+CHECKS["C04"]["text"] = CHECKS["C04"]["text"].rstrip() + (
+    " ADDED IN THE EXTENSION ROUND: memo_by_leading_node_unsound (a sub-selection memo keyed by the leading node is not transparent: witness of seeded "
+    "C04-11 / C05-12); a DETERMINISTIC block (corr/C04_runtimes.py, no randomness) runs fixed requests through graphql_blocking, process_graphql_query "
+    "(generic Executor) and py_gql.graphql on an asyncio loop whose coroutine resolvers complete in reverse / mixed / hashed order, each compared with the "
+    "specification (ordered data, error multiset); generated classes leading-node and same-key-groups (gen/leading_node.py: one field node heading two "
+    "different merged node lists, several merged groups of one type in sequence) on a fixed schema and on every generated schema, under fixed worlds.")
+CHECKS["C04"]["note"] = CHECKS["C04"]["note"].rstrip() + (
+    " The asyncio slice makes completion order a function of the request with `await asyncio.sleep(0)` (all completion orders, thread pools: C08). "
+    "TypesWf (null_error_bijection) follows from the computable typesWfB the driver evaluates (C05's typesWf_of_check).")
+
+_sub("C05", "text", "uniquely named, roots exist), MergeSafe", "uniquely named), MergeSafe")
+_sub("C05", "text",
+     "with RuntimeTie naming exactly "
+     "what still rests on the run-time tie (roots, no __schema/__type selections, acyclicity certificate)",
+     "with RuntimeTie naming what rested on the run-time tie")
+CHECKS["C05"]["text"] = CHECKS["C05"]["text"].rstrip() + (
+    " ADDED IN THE EXTENSION ROUND: the chain is restated from what `validate_ast(...) == []` really gives. ValidDocR drops the clause 'the operation has a "
+    "root type' (the validator does not check it: `mutation { a }` is accepted on a schema without a mutation type and execution answers a non-internal "
+    "error): validated_no_internal_error_rootless (validated_no_internal_error is its corollary), rules_accept_validDocR, "
+    "rules_accept_cannot_go_wrong_rootless; accepted_cannot_go_wrong has the premise 'all 26 rule visitors silent'; the schema hypotheses SchemaOk / SchemaWf / "
+    "RootsAreObjects / TypesWf follow from computable checks (Spec/SchemaChecks.lean; schemaOk_of_checks, rootsAreObjects_of_check, schemaWf_of_checks, "
+    "typesWf_of_check, accepted_cannot_go_wrong_checked) which the driver evaluates on the schema of every request; the executor model reads the schema "
+    "only through six accessors, each invariant under listing the built-in scalars (Lemmas/C05Builtins.lean, execute_congr), so "
+    "accepted_cannot_go_wrong_executed speaks about the description the driver executes (execute_lists_builtins, worldTyped_withBuiltins); "
+    "rules_accept_ranked / rules_accept_refines_spec hand C04's refinement theorem its only hypothesis. Deterministic classes under FIXED worlds: "
+    "divergent-args, leading-node / same-key-groups (gen/leading_node.py), exclusive-then-strict (gen/overlap_memo.py: a (selection set, fragment) pair "
+    "compared first under exclusive parents, then strictly), rootless operations, scale probes at depth 50 (must pass) and 200.")
+CHECKS["C05"]["note"] = CHECKS["C05"]["note"].rstrip() + (
+    " Still hypotheses of the chain: MergeSafe (declarative overlap rule on the executor's document; evaluated by the driver on every accepted document, "
+    "NOT yet derived from the silent OverlappingFieldsCanBeMerged visitor), NoIntrospection, non-empty fragment names (parser), WorldTyped (part of the "
+    "statement). Known findings H13a (validate_ast RecursionError from ~150 nesting levels of selection sets / ~200 of input object literals), H13b (generic "
+    "Executor RecursionError on a 200-fragment field-nested chain that validates).")
